@@ -480,6 +480,10 @@ enum Step {
     DropBtree(ColSel),
     /// `(condition, limit, offset, batch)`
     Query(Cond, usize, usize, usize),
+    /// `begin_transaction; tx_delete; rollback`: no row changes, the restored ids go to the END of their buckets
+    DeleteRollback(Cond),
+    /// `begin_transaction; tx_update; rollback`
+    UpdateRollback(Cond, Vec<(ColSel, Value)>),
 }
 
 #[derive(Clone, Debug)]
@@ -509,6 +513,12 @@ fn step_text(s: &Step) -> String {
         Step::DropHash(c) => format!("drop_index {}", col_name(c)),
         Step::DropBtree(c) => format!("drop_btree_index {}", col_name(c)),
         Step::Query(c, l, o, b) => format!("query limit={l} offset={o} batch={b} where {}", to_model(c)),
+        Step::DeleteRollback(c) => format!("begin; del where {}; rollback", to_model(c)),
+        Step::UpdateRollback(c, sets) => format!(
+            "begin; upd [{}] where {}; rollback",
+            sets.iter().map(|(c, v)| format!("{}={}", col_name(c), tok(v))).collect::<Vec<_>>().join(","),
+            to_model(c)
+        ),
     }
 }
 fn case_json(case: &Case, upto: usize) -> serde_json::Value {
@@ -783,6 +793,352 @@ fn ins(vs: Vec<Value>) -> Step {
 }
 fn q(c: Cond) -> Step {
     Step::Query(c, 1, 0, 1)
+}
+
+// ------------------------------------------------------------------ bucket order: directed cases and the `moves` stream
+
+fn idc(op: Cmp, n: i64) -> Cond {
+    Cond::Leaf(op, ColSel::Id, Value::Int(n))
+}
+fn upd(c: Cond, col: usize, v: Value) -> Step {
+    Step::Update(c, vec![(ColSel::Col(col), v)])
+}
+
+/// Histories after which the id vector of an index bucket is NOT in ascending id order (an UPDATE pushes the id
+/// onto the end of another value's vector, a rolled-back DELETE / UPDATE pushes the restored ids onto the end),
+/// queried with AND / OR trees over two differently indexed columns.  The minimal history first, then its
+/// neighbours: both directions of the move, the same-value update, B-tree on the left, three-way nesting,
+/// delete + re-insert, index built before / after the move, the float zeros sharing one bucket.
+#[allow(clippy::too_many_lines)]
+fn bucket_order_cases() -> Vec<Case> {
+    let i = |x: i64| Value::Int(x);
+    let st = |x: &str| Value::String(x.to_string());
+    let f = |x: f64| Value::Float(x);
+    let mut cases = Vec::new();
+    // one row on each side of the move
+    cases.push(Case {
+        name: "bucket-order-minimal".into(),
+        schema: vec![(Ty::Int, false), (Ty::Int, false)],
+        steps: vec![
+            ins(vec![i(0), i(3)]),
+            ins(vec![i(1), i(3)]),
+            Step::CreateHash(ColSel::Col(1)),
+            Step::CreateHash(ColSel::Col(0)),
+            upd(idc(Cmp::Eq, 1), 0, i(1)),
+            Step::Query(and(leaf(Cmp::Eq, 1, i(3)), leaf(Cmp::Eq, 0, i(1))), 2, 0, 1),
+            Step::Query(and(leaf(Cmp::Eq, 0, i(1)), leaf(Cmp::Eq, 1, i(3))), 1, 1, 2),
+        ],
+    });
+    // employees 1..4 in `ops`, 5..8 in `eng`; the first four move to `eng`: the vector of `eng` is 5,6,7,8,1,2,3,4
+    let emp = |dept: &str, level: i64| ins(vec![st(dept), i(level)]);
+    let q_and = and(leaf(Cmp::Eq, 1, i(3)), leaf(Cmp::Eq, 0, st("eng")));
+    let mut steps = vec![emp("ops", 3), emp("ops", 3), emp("ops", 3), emp("ops", 3), emp("eng", 3), emp("eng", 3), emp("eng", 3), emp("eng", 4)];
+    steps.push(Step::CreateHash(ColSel::Col(1)));
+    steps.push(Step::CreateHash(ColSel::Col(0)));
+    steps.push(Step::Query(q_and.clone(), 3, 0, 2));
+    steps.push(upd(idc(Cmp::Le, 4), 0, st("eng")));
+    for (l, o, b) in [(3, 2, 2), (0, 0, 3), (8, 1, 1), (2, 5, 4), (1, 0, 7)] {
+        steps.push(Step::Query(q_and.clone(), l, o, b));
+    }
+    steps.push(Step::Query(and(leaf(Cmp::Eq, 0, st("eng")), leaf(Cmp::Eq, 1, i(3))), 4, 0, 2));
+    steps.push(Step::Query(and(leaf(Cmp::Eq, 1, i(4)), leaf(Cmp::Eq, 0, st("eng"))), 4, 0, 2));
+    steps.push(Step::Query(and(leaf(Cmp::Ne, 1, i(4)), leaf(Cmp::Eq, 0, st("eng"))), 9, 0, 3));
+    steps.push(Step::Query(or(leaf(Cmp::Eq, 1, i(4)), leaf(Cmp::Eq, 0, st("eng"))), 9, 0, 3));
+    steps.push(Step::Query(and(and(idc(Cmp::Ge, 2), leaf(Cmp::Eq, 1, i(3))), leaf(Cmp::Eq, 0, st("eng"))), 9, 0, 3));
+    steps.push(Step::Query(and(idc(Cmp::Ge, 2), and(leaf(Cmp::Eq, 1, i(3)), leaf(Cmp::Eq, 0, st("eng")))), 9, 1, 3));
+    steps.push(Step::Query(or(and(leaf(Cmp::Eq, 1, i(3)), leaf(Cmp::Eq, 0, st("eng"))), leaf(Cmp::Eq, 1, i(4))), 9, 0, 2));
+    // UPDATE / DELETE with the same two-index condition, then the rebuilt indexes
+    steps.push(Step::Update(and(leaf(Cmp::Eq, 1, i(3)), leaf(Cmp::Eq, 0, st("eng"))), vec![(ColSel::Col(1), i(5))]));
+    steps.push(Step::Query(and(leaf(Cmp::Eq, 1, i(5)), leaf(Cmp::Eq, 0, st("eng"))), 9, 0, 3));
+    steps.push(Step::Delete(and(leaf(Cmp::Eq, 1, i(5)), and(leaf(Cmp::Eq, 0, st("eng")), idc(Cmp::Ge, 6)))));
+    steps.push(Step::Query(and(leaf(Cmp::Eq, 1, i(5)), leaf(Cmp::Eq, 0, st("eng"))), 9, 0, 3));
+    steps.push(Step::DropHash(ColSel::Col(0)));
+    steps.push(Step::CreateHash(ColSel::Col(0)));
+    steps.push(Step::Query(and(leaf(Cmp::Eq, 1, i(5)), leaf(Cmp::Eq, 0, st("eng"))), 9, 0, 3));
+    cases.push(Case { name: "bucket-order-update-low-into-high".into(), schema: vec![(Ty::Str, false), (Ty::Int, false)], steps });
+    // the other direction (high ids into a bucket of low ids, one by one and out of order), the same-value
+    // update, a B-tree on the left-hand side, both kinds of index on one column
+    cases.push(Case {
+        name: "bucket-order-high-into-low-btree-left".into(),
+        schema: vec![(Ty::Int, false), (Ty::Int, true)],
+        steps: vec![
+            Step::CreateHash(ColSel::Col(0)),
+            Step::CreateBtree(ColSel::Col(1)),
+            Step::CreateBtree(ColSel::Col(0)),
+            ins(vec![i(0), i(1)]),
+            ins(vec![i(0), i(2)]),
+            ins(vec![i(0), i(3)]),
+            ins(vec![i(1), i(1)]),
+            ins(vec![i(1), i(2)]),
+            ins(vec![i(1), Value::Null]),
+            ins(vec![i(1), i(3)]),
+            upd(idc(Cmp::Eq, 7), 0, i(0)),
+            upd(idc(Cmp::Eq, 5), 0, i(0)),
+            Step::Query(and(leaf(Cmp::Ge, 1, i(2)), leaf(Cmp::Eq, 0, i(0))), 5, 0, 2),
+            Step::Query(and(leaf(Cmp::Lt, 1, i(3)), leaf(Cmp::Eq, 0, i(0))), 2, 1, 1),
+            Step::Query(and(leaf(Cmp::Le, 0, i(0)), leaf(Cmp::Eq, 0, i(0))), 5, 0, 3),
+            // same-value update: row 1 goes to the end of the vector it is already in
+            upd(idc(Cmp::Eq, 1), 0, i(0)),
+            Step::Query(and(leaf(Cmp::Ge, 1, i(1)), leaf(Cmp::Eq, 0, i(0))), 5, 0, 2),
+            Step::Query(and(leaf(Cmp::Gt, 1, i(0)), and(leaf(Cmp::Le, 1, i(2)), leaf(Cmp::Eq, 0, i(0)))), 5, 0, 2),
+            // whole bucket moves over and back
+            upd(leaf(Cmp::Eq, 0, i(1)), 0, i(0)),
+            upd(leaf(Cmp::Le, 1, i(1)), 0, i(1)),
+            Step::Query(and(leaf(Cmp::Ge, 1, i(1)), leaf(Cmp::Eq, 0, i(1))), 5, 0, 2),
+            Step::Query(and(leaf(Cmp::Ge, 1, i(1)), leaf(Cmp::Eq, 0, i(0))), 5, 0, 2),
+            Step::Query(or(leaf(Cmp::Eq, 0, i(1)), leaf(Cmp::Eq, 1, Value::Null)), 5, 0, 2),
+        ],
+    });
+    // rolled-back statements restore the ids at the END of their vectors; delete + re-insert keeps them ascending
+    cases.push(Case {
+        name: "bucket-order-rollback-and-reinsert".into(),
+        schema: vec![(Ty::Str, false), (Ty::Int, false)],
+        steps: vec![
+            Step::CreateHash(ColSel::Col(0)),
+            Step::CreateHash(ColSel::Col(1)),
+            Step::CreateBtree(ColSel::Col(1)),
+            emp("a", 1),
+            emp("a", 2),
+            emp("a", 1),
+            emp("b", 1),
+            emp("a", 1),
+            Step::DeleteRollback(idc(Cmp::Le, 2)),
+            Step::Query(and(leaf(Cmp::Eq, 1, i(1)), leaf(Cmp::Eq, 0, st("a"))), 5, 0, 2),
+            Step::Query(and(leaf(Cmp::Ge, 1, i(1)), leaf(Cmp::Eq, 0, st("a"))), 5, 0, 2),
+            Step::UpdateRollback(idc(Cmp::Eq, 3), vec![(ColSel::Col(0), st("b"))]),
+            Step::Query(and(leaf(Cmp::Eq, 1, i(1)), leaf(Cmp::Eq, 0, st("a"))), 5, 0, 2),
+            Step::UpdateRollback(leaf(Cmp::Eq, 0, st("a")), vec![(ColSel::Col(1), i(1)), (ColSel::Col(0), st("a"))]),
+            Step::Query(and(leaf(Cmp::Eq, 0, st("a")), leaf(Cmp::Eq, 1, i(1))), 5, 0, 2),
+            Step::UpdateRollback(Cond::True, vec![(ColSel::Unknown, i(1))]),
+            Step::UpdateRollback(Cond::True, vec![(ColSel::Col(1), st("x"))]),
+            Step::Delete(idc(Cmp::Eq, 1)),
+            emp("a", 1),
+            emp("a", 1),
+            Step::DeleteRollback(leaf(Cmp::Eq, 0, st("a"))),
+            Step::Query(and(leaf(Cmp::Eq, 1, i(1)), leaf(Cmp::Eq, 0, st("a"))), 5, 1, 2),
+            Step::Query(and(leaf(Cmp::Le, 1, i(1)), leaf(Cmp::Eq, 0, st("a"))), 5, 0, 3),
+            Step::DeleteRollback(Cond::True),
+            Step::Query(and(leaf(Cmp::Eq, 0, st("a")), leaf(Cmp::Eq, 1, i(1))), 5, 0, 3),
+            Step::Query(Cond::True, 0, 1, 5),
+        ],
+    });
+    // both float zeros live in one bucket; rows move into it from both sides; index created after the moves
+    cases.push(Case {
+        name: "bucket-order-float-zeros-late-index".into(),
+        schema: vec![(Ty::Float, true), (Ty::Int, false)],
+        steps: vec![
+            Step::CreateHash(ColSel::Col(1)),
+            ins(vec![f(1.0), i(1)]),
+            ins(vec![f(1.0), i(1)]),
+            ins(vec![f(-0.0), i(1)]),
+            ins(vec![f(0.0), i(2)]),
+            ins(vec![Value::Null, i(1)]),
+            Step::CreateHash(ColSel::Col(0)),
+            upd(idc(Cmp::Eq, 1), 0, f(0.0)),
+            upd(idc(Cmp::Eq, 5), 0, f(-0.0)),
+            upd(idc(Cmp::Eq, 2), 0, f(-0.0)),
+            Step::Query(and(leaf(Cmp::Eq, 1, i(1)), leaf(Cmp::Eq, 0, f(0.0))), 5, 0, 2),
+            Step::Query(and(leaf(Cmp::Eq, 1, i(1)), leaf(Cmp::Eq, 0, f(-0.0))), 2, 1, 1),
+            upd(idc(Cmp::Eq, 3), 0, Value::Null),
+            upd(idc(Cmp::Eq, 1), 0, Value::Null),
+            Step::Query(and(leaf(Cmp::Eq, 1, i(1)), leaf(Cmp::Eq, 0, Value::Null)), 5, 0, 2),
+            Step::CreateBtree(ColSel::Col(1)),
+            Step::DropHash(ColSel::Col(1)),
+            Step::Query(and(leaf(Cmp::Le, 1, i(1)), leaf(Cmp::Eq, 0, f(0.0))), 5, 0, 2),
+        ],
+    });
+    cases
+}
+
+/// small value domains (every value renders as query text, so the router paths run too)
+fn moves_domain(ty: Ty) -> Vec<Value> {
+    match ty {
+        Ty::Int => (0..3).map(Value::Int).collect(),
+        Ty::Str => ["a", "b", "ab"].iter().map(|x| Value::String((*x).to_string())).collect(),
+        Ty::Float => vec![Value::Float(0.0), Value::Float(-0.0), Value::Float(1.0), Value::Float(2.5)],
+        Ty::Bool => vec![Value::Bool(false), Value::Bool(true)],
+        _ => vec![Value::Int(0)],
+    }
+}
+
+/// The `moves` stream: 2-3 columns over small domains, each column with a hash and / or B-tree index created
+/// at a random point of the history (before the rows, after the inserts, after the moves, never), rows moved
+/// between the values of a column in both directions (low ids into a value held by high ids and the reverse,
+/// one row, an id range, a whole bucket, a same-value update), deletes followed by re-inserts, rolled-back
+/// deletes / updates, index rebuilds -- queried throughout with AND / OR trees whose leaves sit on two or more
+/// DIFFERENT columns with values that occur in the data.
+#[allow(clippy::too_many_lines)]
+fn gen_moves_case(r: &Rng, idx: usize) -> Case {
+    let mut g = r.fork(&format!("moves{idx}"));
+    let ncols = 2 + g.below(2) as usize;
+    let schema: Vec<(Ty, bool)> = (0..ncols).map(|_| (*g.pick(&[Ty::Int, Ty::Int, Ty::Str, Ty::Str, Ty::Float, Ty::Bool]), g.chance(1, 3))).collect();
+    let doms: Vec<Vec<Value>> = schema.iter().map(|(t, _)| moves_domain(*t)).collect();
+    let val = |g: &mut Rng, col: usize| -> Value {
+        if schema[col].1 && g.chance(1, 8) { Value::Null } else { g.pick(&doms[col]).clone() }
+    };
+    // when each index comes into being: 0 never, 1 before the rows, 2 after the inserts, 3 in the middle of the moves, 4 after them
+    let mut plan: Vec<(u64, Step)> = Vec::new();
+    for c in 0..ncols {
+        let (h, o) = match g.below(8) {
+            0 => (0, 0),
+            1 => (0, 1 + g.below(4)),
+            2 | 3 => (1 + g.below(4), 0),
+            _ => (1 + g.below(4), 1 + g.below(4)),
+        };
+        if h > 0 {
+            plan.push((h, Step::CreateHash(ColSel::Col(c))));
+        }
+        if o > 0 {
+            plan.push((o, Step::CreateBtree(ColSel::Col(c))));
+        }
+    }
+    if g.chance(1, 5) {
+        plan.push((1 + g.below(4), if g.chance(1, 2) { Step::CreateBtree(ColSel::Id) } else { Step::CreateHash(ColSel::Id) }));
+    }
+    let mut steps: Vec<Step> = Vec::new();
+    let mut nrows: i64 = 0;
+    let at = |steps: &mut Vec<Step>, when: u64| {
+        for (w, s) in &plan {
+            if *w == when {
+                steps.push(s.clone());
+            }
+        }
+    };
+    // a query over two or more different columns
+    let leaf_on = |g: &mut Rng, col: usize, nrows: i64| -> Cond {
+        if g.chance(1, 10) {
+            return idc(*g.pick(&[Cmp::Le, Cmp::Ge, Cmp::Gt, Cmp::Eq]), g.range(1, nrows.max(1)));
+        }
+        let op = *g.pick(&[Cmp::Eq, Cmp::Eq, Cmp::Eq, Cmp::Le, Cmp::Ge, Cmp::Lt, Cmp::Gt, Cmp::Ne]);
+        Cond::Leaf(op, ColSel::Col(col), val(g, col))
+    };
+    let query = |g: &mut Rng, nrows: i64| -> Step {
+        let mut cols: Vec<usize> = (0..ncols).collect();
+        g.shuffle(&mut cols);
+        let a = leaf_on(g, cols[0], nrows);
+        // the right-hand side of the outermost AND is an equality most of the time
+        let b = if g.chance(3, 4) { Cond::Leaf(Cmp::Eq, ColSel::Col(cols[1]), val(g, cols[1])) } else { leaf_on(g, cols[1], nrows) };
+        let third = leaf_on(g, cols[(2 % ncols).max(if ncols > 2 { 2 } else { 0 })], nrows);
+        let c = match g.below(12) {
+            0..=4 => and(a, b),
+            5 => and(b, a),
+            6 => and(and(third, a), b),
+            7 => and(third, and(a, b)),
+            8 => or(a, b),
+            9 => and(or(third, a), b),
+            10 => or(and(a, b), third),
+            _ => and(a, or(b, third)),
+        };
+        Step::Query(c, g.below(6) as usize, g.below(4) as usize, 1 + g.below(4) as usize)
+    };
+    at(&mut steps, 1);
+    // inserts: in blocks (low ids hold one value, high ids another) or at random
+    let n = 4 + g.below(6) as i64;
+    let block_col = g.below(ncols as u64) as usize;
+    let blocks = g.chance(2, 3);
+    let (lo_v, hi_v) = (doms[block_col][0].clone(), doms[block_col][1 % doms[block_col].len()].clone());
+    for k in 0..n {
+        let mut vs: Vec<Value> = (0..ncols).map(|c| val(&mut g, c)).collect();
+        if blocks {
+            vs[block_col] = if k < n / 2 { lo_v.clone() } else { hi_v.clone() };
+        }
+        steps.push(ins(vs));
+        nrows += 1;
+    }
+    at(&mut steps, 2);
+    if g.chance(1, 2) {
+        steps.push(query(&mut g, nrows));
+    }
+    let n_moves = 3 + g.below(6);
+    for k in 0..n_moves {
+        if k == n_moves / 2 {
+            at(&mut steps, 3);
+        }
+        let col = if g.chance(1, 2) { block_col } else { g.below(ncols as u64) as usize };
+        let v = val(&mut g, col);
+        let pivot = g.range(1, nrows);
+        let who = match g.below(10) {
+            0 | 1 => idc(Cmp::Le, pivot),
+            2 | 3 => idc(Cmp::Ge, pivot),
+            4 | 5 => idc(Cmp::Eq, pivot),
+            6 => Cond::Leaf(Cmp::Eq, ColSel::Col(col), val(&mut g, col)),
+            7 => Cond::Leaf(Cmp::Eq, ColSel::Col(col), v.clone()), // same-value update
+            8 => {
+                let other = g.below(ncols as u64) as usize;
+                Cond::Leaf(Cmp::Eq, ColSel::Col(other), val(&mut g, other))
+            },
+            _ => and(idc(Cmp::Ge, pivot), Cond::Leaf(Cmp::Ne, ColSel::Col(col), v.clone())),
+        };
+        match g.below(12) {
+            0..=6 => steps.push(upd(who, col, v)),
+            7 => {
+                let col2 = (col + 1) % ncols;
+                let v2 = val(&mut g, col2);
+                steps.push(Step::Update(who, vec![(ColSel::Col(col), v), (ColSel::Col(col2), v2)]));
+            },
+            8 => {
+                steps.push(Step::Delete(who));
+                for _ in 0..1 + g.below(2) {
+                    let vs: Vec<Value> = (0..ncols).map(|c| val(&mut g, c)).collect();
+                    steps.push(ins(vs));
+                    nrows += 1;
+                }
+            },
+            9 => steps.push(Step::DeleteRollback(who)),
+            10 => steps.push(Step::UpdateRollback(who, vec![(ColSel::Col(col), v)])),
+            _ => {
+                // rebuild an index in the middle of the history (its vectors are ascending again)
+                let c = ColSel::Col(col);
+                if g.chance(1, 2) {
+                    steps.push(Step::DropHash(c.clone()));
+                    steps.push(Step::CreateHash(c));
+                } else {
+                    steps.push(Step::DropBtree(c.clone()));
+                    steps.push(Step::CreateBtree(c));
+                }
+            },
+        }
+        if g.chance(1, 2) {
+            steps.push(query(&mut g, nrows));
+        }
+    }
+    at(&mut steps, 4);
+    let tail: Vec<Step> = (0..5 + g.below(4)).map(|_| query(&mut g, nrows)).collect();
+    steps.extend(tail.iter().cloned());
+    // the same questions after every index has been rebuilt over the rows as they are now
+    for c in 0..ncols {
+        if g.chance(1, 2) {
+            steps.push(Step::DropHash(ColSel::Col(c)));
+            steps.push(Step::CreateHash(ColSel::Col(c)));
+        }
+    }
+    steps.extend(tail.into_iter().take(2));
+    Case { name: format!("moves-{idx}"), schema, steps }
+}
+
+/// run a case; when it produced a violation of a class not seen before in this case, shrink the step list
+/// (ddmin, the class must reproduce) and put the shrunk failing input in the place of the first one
+fn run_case_shrinking(case: &Case, rep: &mut Report, m: &mut Model, text_budget: &mut u64) {
+    let n0 = rep.violations.len();
+    run_case(case, rep, m, text_budget);
+    if rep.violations.len() == n0 {
+        return;
+    }
+    let class = rep.violations[n0]["class"].as_str().unwrap_or("").to_string();
+    let reproduce = |steps: &[Step], m: &mut Model| -> Option<serde_json::Value> {
+        let mut tmp = Report::new("");
+        let mut budget: u64 = 400;
+        run_case(&Case { name: case.name.clone(), schema: case.schema.clone(), steps: steps.to_vec() }, &mut tmp, m, &mut budget);
+        tmp.violations.iter().find(|v| v["class"] == class.as_str()).cloned()
+    };
+    let shrunk = shrink_list(&case.steps, &mut |steps: &[Step]| reproduce(steps, m).is_some());
+    if shrunk.len() < case.steps.len() {
+        if let Some(mut v) = reproduce(&shrunk, m) {
+            v["shrunk"] = json!(format!("{} of {} steps", shrunk.len(), case.steps.len()));
+            rep.violations[n0] = v;
+            rep.hit("shrunk_failing_input");
+        }
+    }
 }
 
 /// hand-written adversarial scenarios, run first on every invocation
@@ -1191,8 +1547,73 @@ fn cond_leaves<'a>(c: &'a Cond, out: &mut Vec<&'a Cond>) {
     }
 }
 
-/// stable, machine-computed `<site>/<kind>` of a strategy's wrong answer
-fn classify(strategy: &str, plan: &str, c: &Cond, got: &[u64], want: &[u64], img: &Img, dead_slots: bool) -> String {
+/// The id vectors the engine keeps for one index, read from its store (`_idx:t:<column>:<hash>` for a hash
+/// index, `_btree:t:<column>:<sortable key>` for the stored copy of a B-tree; field `ids` = little-endian u64s):
+/// every vector in its own order, the vectors ordered by their smallest id.  `None` when a vector cannot be
+/// read this way (another layout): order checks are then skipped, never failed -- the ORDER inside a vector is
+/// no observable of the property, it is what the model's witnesses and the shape statistics rest on.
+fn real_buckets(e: &RelationalEngine, kind: &str, col: &str) -> Option<Vec<Vec<u64>>> {
+    let prefix = format!("{}:t:{col}:", if kind == "h" { "_idx" } else { "_btree" });
+    let mut out: Vec<Vec<u64>> = Vec::new();
+    for key in e.store().scan(&prefix) {
+        let t = e.store().get(&key).ok()?;
+        match t.get("ids") {
+            Some(tensor_store::TensorValue::Scalar(tensor_store::ScalarValue::Bytes(b))) if b.len() % 8 == 0 && !b.is_empty() => {
+                out.push(b.chunks_exact(8).map(|ch| u64::from_le_bytes(ch.try_into().expect("8 bytes"))).collect());
+            },
+            _ => return None,
+        }
+    }
+    out.sort_by_key(|b| b.iter().copied().min().unwrap_or(0));
+    Some(out)
+}
+fn show_buckets(bs: &[Vec<u64>]) -> String {
+    if bs.is_empty() {
+        "-".into()
+    } else {
+        bs.iter().map(|b| b.iter().map(u64::to_string).collect::<Vec<_>>().join(",")).collect::<Vec<_>>().join(";")
+    }
+}
+fn ascending(b: &[u64]) -> bool {
+    b.windows(2).all(|w| w[0] < w[1])
+}
+/// ids that stand in a NOT ascending id vector of an index the condition's leaves can use on this engine (hash
+/// index of an `=` leaf's column, B-tree index of a range leaf's column)
+fn ids_in_unsorted_buckets(e: &RelationalEngine, c: &Cond, hash: &[String], btree: &[String]) -> Vec<u64> {
+    let mut leaves = Vec::new();
+    cond_leaves(c, &mut leaves);
+    let mut out = Vec::new();
+    for l in leaves {
+        if let Cond::Leaf(op, col, _) = l {
+            let n = col_name(col);
+            let kind = match op {
+                Cmp::Eq if hash.contains(&n) => "h",
+                Cmp::Lt | Cmp::Le | Cmp::Gt | Cmp::Ge if btree.contains(&n) => "o",
+                _ => continue,
+            };
+            for b in real_buckets(e, kind, &n).unwrap_or_default() {
+                if !ascending(&b) {
+                    out.extend(b);
+                }
+            }
+        }
+    }
+    out
+}
+
+/// the leaf whose index `try_index_lookup` uses: the first index-usable leaf of the AND spine, left to right
+fn lookup_leaf<'a>(c: &'a Cond, hash: &[String], btree: &[String]) -> Option<&'a Cond> {
+    match c {
+        Cond::Leaf(..) => if plan_of(c, hash, btree) == "scan" { None } else { Some(c) },
+        Cond::And(a, b) => lookup_leaf(a, hash, btree).or_else(|| lookup_leaf(b, hash, btree)),
+        _ => None,
+    }
+}
+
+/// stable, machine-computed `<site>/<kind>` of a strategy's wrong answer; `lk` = the leaf the index lookup of
+/// this engine uses (`lookup_leaf`), `unsorted` = `ids_in_unsorted_buckets`
+#[allow(clippy::too_many_arguments)]
+fn classify(strategy: &str, plan: &str, c: &Cond, got: &[u64], want: &[u64], img: &Img, dead_slots: bool, unsorted: &[u64], lk: Option<&Cond>) -> String {
     let missing: Vec<u64> = want.iter().filter(|x| !got.contains(x)).copied().collect();
     let extra: Vec<u64> = got.iter().filter(|x| !want.contains(x)).copied().collect();
     let mut leaves = Vec::new();
@@ -1212,8 +1633,9 @@ fn classify(strategy: &str, plan: &str, c: &Cond, got: &[u64], want: &[u64], img
                 "btree" => "relational_engine.btree_index",
                 _ => "relational_engine.scan",
             };
+            // the bucket-function classes: only the leaf that is looked up in the hash index can miss a row this way
             if plan == "hash" && !missing.is_empty() {
-                for l in &leaves {
+                for l in lk.iter() {
                     if let Cond::Leaf(Cmp::Eq, col, v) = l {
                         if let Value::Float(z) = v {
                             if *z == 0.0 && missing.iter().any(|id| matches!(val_of(*id, col), Some(Value::Float(x)) if x == 0.0 && x.to_bits() != z.to_bits())) {
@@ -1234,6 +1656,11 @@ fn classify(strategy: &str, plan: &str, c: &Cond, got: &[u64], want: &[u64], img
                         }
                     }
                 }
+            }
+            // rows are lost (none invented) and a lost row's id stands in an id vector that is not in ascending
+            // order: the answer depends on the history that filled the bucket, not on its content
+            if plan != "scan" && extra.is_empty() && missing.iter().any(|id| unsorted.contains(id)) {
+                return format!("{site}/rows_of_unsorted_bucket_missed");
             }
             if strategy == "count" {
                 format!("{site}/wrong_count")
@@ -1433,6 +1860,8 @@ fn run_case(case: &Case, rep: &mut Report, m: &mut Model, text_budget: &mut u64)
     let mut st = Stats { state_changes: 0, nonempty: 0 };
     let mut total_inserted: u64 = 0;
     let key: String = case.steps.iter().map(step_text).collect::<Vec<_>>().join("|");
+    // directed bucket cases and the `moves` stream always, every fourth random case
+    let check_buckets = case.name.starts_with("bucket-") || case.name.starts_with("moves-") || fnv(&case.name) % 4 == 0;
 
     for (si, step) in case.steps.iter().enumerate() {
         let input = || case_json(case, si);
@@ -1745,6 +2174,54 @@ fn run_case(case: &Case, rep: &mut Report, m: &mut Model, text_budget: &mut u64)
                     viol(rep, "relational_engine.index_ddl/changed_table", "table image differs after an index create/drop", input());
                 }
             },
+            Step::DeleteRollback(c) | Step::UpdateRollback(c, _) => {
+                let is_del = matches!(step, Step::DeleteRollback(_));
+                rep.hit(if is_del { "op.delete_rollback" } else { "op.update_rollback" });
+                let before = image(&e0);
+                let want_ids = oracle_ids(c, &before);
+                let ec = to_engine(c);
+                let no_sets: Vec<(ColSel, Value)> = Vec::new();
+                let sets = if let Step::UpdateRollback(_, sets) = step { sets } else { &no_sets };
+                let map: HashMap<String, Value> = sets.iter().map(|(c, v)| (col_name(c), v.clone())).collect();
+                let mut answers: Vec<String> = Vec::new();
+                for (name, e) in [("no_index", &e0), ("all_indexes", eall), ("generated_indexes", &em)] {
+                    let tx = e.begin_transaction();
+                    let r = if is_del { e.tx_delete(tx, "t", ec.clone()) } else { e.tx_update(tx, "t", ec.clone(), map.clone()) };
+                    let rb = e.rollback(tx);
+                    let a = match &r {
+                        Ok(n) => format!("ok {n}"),
+                        Err(er) => format!("err {}", err_class(er)),
+                    };
+                    if let Err(er) = &rb {
+                        viol(rep, "relational_engine.rollback/error", &format!("rollback ({name}) failed: {}", evar(er)), input());
+                    }
+                    // oracle: a rolled-back statement changes no row; while it ran it counted exactly the matching rows
+                    let after = image(e);
+                    if show_img(&after) != show_img(&before) {
+                        viol(rep, "relational_engine.rollback/changed_table", &format!("after begin / {} / rollback ({name}) the table is {} but it was {}", if is_del { "tx_delete" } else { "tx_update" }, show_img(&after), show_img(&before)), input());
+                    } else if let Ok(n) = &r {
+                        if *n != want_ids.len() {
+                            viol(rep, &format!("relational_engine.{}/wrong_count", if is_del { "tx_delete" } else { "tx_update" }), &format!("the rolled-back statement ({name}) reported {n} rows, {} match", want_ids.len()), input());
+                        }
+                    }
+                    answers.push(a);
+                }
+                if answers[0] != answers[1] || answers[0] != answers[2] {
+                    viol(rep, "relational_engine.rollback/index_changes_outcome", &format!("the rolled-back statement answered {} / {} / {} on the three engines", answers[0], answers[1], answers[2]), input());
+                }
+                let line = if is_del {
+                    format!("rbdel {}", to_model(c))
+                } else {
+                    format!("rbupd {} {} {}", sets.len(), sets.iter().map(|(c, v)| format!("{} {}", col_model(c), tok(v))).collect::<Vec<_>>().join(" "), to_model(c))
+                };
+                let ma = m.ask(&line);
+                rep.case("ops", None);
+                rep.compare("ops", || json!({"case": input(), "line": line}), &answers[2], &ma);
+                let md = m.ask("dump");
+                rep.case("image", None);
+                rep.compare("image", || json!({"case": input(), "after": line}), &show_img(&image(&em)), &md);
+                rep.hit(if answers[0].starts_with("ok") && !want_ids.is_empty() { "op.rollback.touched" } else { "op.rollback.none" });
+            },
             Step::Query(c, limit, offset, batch) => {
                 rep.hit("op.query");
                 let img = image(&e0);
@@ -1783,6 +2260,50 @@ fn run_case(case: &Case, rep: &mut Report, m: &mut Model, text_budget: &mut u64)
                 rep.case("spec", Some(&format!("{key}#{si}")));
                 rep.compare("spec", || json!({"case": input(), "cond": cm}), &show_ids(&want), &spec_model);
 
+                // the id vectors of the generated-index engine against the model's, ORDER included; the candidate list
+                // of this query in the order the code produces it (shape statistics)
+                if check_buckets {
+                    for (kind, cols) in [("h", &em_hash), ("o", &em_btree)] {
+                        for col in cols {
+                            // the stored copy of a B-tree is keyed by `sortable_key`, which tells -0.0 from 0.0 and the NaNs
+                            // from one another; the in-memory map (and the model) does not
+                            let float_col = col.strip_prefix('c').and_then(|x| x.parse::<usize>().ok()).is_some_and(|i| case.schema[i].0 == Ty::Float);
+                            if kind == "o" && float_col {
+                                continue;
+                            }
+                            let ma = m.ask(&format!("buckets {kind} {col}"));
+                            match real_buckets(&em, kind, col) {
+                                Some(bs) if !(bs.is_empty() && ma != "-") => {
+                                    rep.case("bucket_order", None);
+                                    rep.hit(if bs.iter().all(|b| ascending(b)) { "bucket_order.all_ascending" } else { "bucket_order.some_vector_not_ascending" });
+                                    rep.compare("bucket_order", || json!({"case": input(), "index": format!("{kind} {col}")}), &show_buckets(&bs), &ma);
+                                },
+                                _ => rep.hit("bucket_order.unreadable"),
+                            }
+                        }
+                    }
+                    let cand = m.ask(&format!("q cand {cm}"));
+                    if cand != "scan" && cand != "-" {
+                        let ids: Vec<u64> = cand.split(',').filter_map(|x| x.parse().ok()).collect();
+                        rep.hit(if ascending(&ids) { "shape.candidates_ascending" } else { "shape.candidates_not_ascending" });
+                    }
+                    // a two-index AND (left side answered by an index, right side `=` on a hash-indexed column) whose
+                    // right-hand bucket is out of id order, per engine
+                    if let Cond::And(a, b) = c {
+                        if let Cond::Leaf(Cmp::Eq, bcol, bv) = b.as_ref() {
+                            for (ename, e, hs, bs) in [("all_indexes", eall, &all_cols, &all_cols), ("generated_indexes", &em, &em_hash, &em_btree)] {
+                                if plan_of(a, hs, bs) != "scan" && hs.contains(&col_name(bcol)) {
+                                    let holders: Vec<u64> = img.iter().filter(|(id, vs)| h_get(*id, vs, bcol).is_some_and(|x| h_eq(&x, bv))).map(|(id, _)| *id).collect();
+                                    let unsorted = real_buckets(e, "h", &col_name(bcol)).unwrap_or_default().iter().any(|bk| !ascending(bk) && bk.iter().any(|id| holders.contains(id)));
+                                    rep.hit(&format!("shape.and_two_indexes.{ename}.right_bucket_{}", if unsorted { "not_ascending" } else { "ascending" }));
+                                    if unsorted && !want.is_empty() {
+                                        rep.hit(&format!("shape.and_two_indexes.{ename}.right_bucket_not_ascending.nonempty_answer"));
+                                    }
+                                }
+                            }
+                        }
+                    }
+                }
                 let page = |ids: &[u64], l: usize, o: usize| -> Vec<u64> { ids.iter().skip(o).take(l).copied().collect() };
                 // derived parameters (kept out of `Step::Query` so that old replays stay valid)
                 let max_rows = limit.wrapping_mul(2).wrapping_add(*offset) % 7;
@@ -1872,7 +2393,9 @@ fn run_case(case: &Case, rep: &mut Report, m: &mut Model, text_budget: &mut u64)
                                         continue_model_compare(rep, m, is_model_engine, strategy, &mline, &want_s, &input);
                                         continue;
                                     }
-                                    let class = classify(strategy, plan, c, ids, &want_s, &img, dead_slots);
+                                    // (`count` answers with a number, not with ids)
+                                    let unsorted = if plan == "scan" || strategy == "count" { Vec::new() } else { ids_in_unsorted_buckets(e, c, hs, bs) };
+                                    let class = classify(strategy, plan, c, ids, &want_s, &img, dead_slots, &unsorted, lookup_leaf(c, hs, bs));
                                     viol(rep, &class, &format!("{strategy} on engine '{ename}' (plan {plan}) returned {} but exactly {} satisfy the condition", show_ids(ids), show_ids(&want_s)), json!({"case": input(), "strategy": strategy, "engine": ename, "limit": limit, "offset": offset, "batch": batch, "table": show_img(&img)}));
                                 }
                             },
@@ -2068,7 +2591,7 @@ fn run_case(case: &Case, rep: &mut Report, m: &mut Model, text_budget: &mut u64)
                                 if ids != want && eall_select.as_ref() == Some(&ids) {
                                     rep.hit("inherits_select_defect.router_text");
                                 } else if ids != want {
-                                    let class = classify("router_text", "any", c, &ids, &want, &img, dead_slots);
+                                    let class = classify("router_text", "any", c, &ids, &want, &img, dead_slots, &[], None);
                                     viol(rep, &class, &format!("`{stmt}` returned {} but exactly {} satisfy the condition", show_ids(&ids), show_ids(&want)), json!({"case": input(), "statement": stmt, "table": show_img(&img)}));
                                 }
                             },
@@ -2088,7 +2611,7 @@ fn run_case(case: &Case, rep: &mut Report, m: &mut Model, text_budget: &mut u64)
                                 if ids != want && eall_select.as_ref() == Some(&ids) {
                                     rep.hit("inherits_select_defect.router_parsed");
                                 } else if ids != want {
-                                    let class = classify("router_parsed", "any", c, &ids, &want, &img, dead_slots);
+                                    let class = classify("router_parsed", "any", c, &ids, &want, &img, dead_slots, &[], None);
                                     viol(rep, &class, &format!("`{stmt}` (parser path) returned {} but exactly {} satisfy the condition", show_ids(&ids), show_ids(&want)), json!({"case": input(), "statement": stmt, "table": show_img(&img)}));
                                 }
                             },
@@ -2434,15 +2957,21 @@ fn main() {
     let mut text_budget: u64 = if args.thorough { 75_000 } else { 11_000 };
 
     value_semantics(&mut rep, &mut m, &mut root.fork("values"), if args.thorough { 20_000 } else { 4_000 });
-    for case in directed_cases(args.thorough) {
+    for case in bucket_order_cases().into_iter().chain(directed_cases(args.thorough)) {
         rep.hit("case.directed");
-        run_case(&case, &mut rep, &mut m, &mut text_budget);
+        run_case_shrinking(&case, &mut rep, &mut m, &mut text_budget);
+    }
+    let rm = root.fork("moves");
+    for idx in 0..(if args.thorough { 900 } else { 60 }) {
+        let case = gen_moves_case(&rm, idx);
+        rep.hit("case.moves");
+        run_case_shrinking(&case, &mut rep, &mut m, &mut text_budget);
     }
     let mut r = root.fork("cases");
     for idx in 0..n_cases {
         let case = gen_case(&mut r, idx, n_ops, n_queries);
         rep.hit("case.random");
-        run_case(&case, &mut rep, &mut m, &mut text_budget);
+        run_case_shrinking(&case, &mut rep, &mut m, &mut text_budget);
     }
     depth_rows(&mut rep, &mut m, &mut root.fork("depth_rows"), if args.thorough { 20_000 } else { 2_500 });
     depth_engine(&mut rep, &mut m, &mut root.fork("depth_engine"), if args.thorough { 2_000 } else { 120 });
